@@ -32,6 +32,7 @@ type zzTransport struct {
 	// (allowed by the io.Reader contract; crypto/tls does it when close_notify follows the last record)
 	eofWithData bool
 	eof         bool
+	local       string // local endpoint (default 192.0.2.10:3868)
 }
 
 func zzNewTransport(name string) *zzTransport {
@@ -87,7 +88,12 @@ func (t *zzTransport) Close() error {
 	}
 	return nil
 }
-func (t *zzTransport) LocalAddr() net.Addr                { return zzNamedAddr{"192.0.2.10:3868"} }
+func (t *zzTransport) LocalAddr() net.Addr {
+	if t.local != "" {
+		return zzNamedAddr{t.local}
+	}
+	return zzNamedAddr{"192.0.2.10:3868"}
+}
 func (t *zzTransport) RemoteAddr() net.Addr               { return zzNamedAddr{t.name} }
 func (t *zzTransport) SetDeadline(d time.Time) error      { return nil }
 func (t *zzTransport) SetReadDeadline(d time.Time) error  { return nil }
